@@ -335,6 +335,7 @@ func runC21Scripted(r *vf.Run, idx int, sc c21Script, pool []*keys.Identity, b *
 	sends := map[string]*g8sig.SendOp{}
 	cancelled := map[string]bool{}
 	validAcks := map[uint64]int{}    // acks pushed for a seq whose SendMsg the relay had seen
+	earlyAcks := map[uint64]int{}    // acks pushed by number for a seq the client had NOT yet named to the relay
 	ackedFor := map[string]int{}     // payload id -> acks the script pushed ON BEHALF OF that message (the partner "received" it)
 	delivered := map[uint64]string{} // q -> payload delivered with RecvMsg
 	wrongDelivered := 0              // wrong acks / clears delivered while something was outstanding
@@ -371,6 +372,16 @@ func runC21Scripted(r *vf.Run, idx int, sc c21Script, pool []*keys.Identity, b *
 				continue
 			}
 			okSends++
+			if validAcks[so.Seqno] == 0 && earlyAcks[so.Seqno] > 0 {
+				// The scripted relay pushed AckMsg(n) BEFORE the client transmitted message n
+				// (e.g. the writer was still parked in the re-transmission of n-1 after a
+				// re-open) and the client later gave seqno n to this message: the ack names
+				// exactly this message, so "acks only affect the message they name" is not
+				// contradicted, and a relay acknowledging something it has not seen is outside
+				// the behaviours C21 judges (acks are not authenticated). Counted, not judged.
+				r.Count("scripted_send_completed_by_ack_pushed_before_transmission", 1)
+				continue
+			}
 			if validAcks[so.Seqno] == 0 {
 				r.Violation("scripted/send-ok-without-matching-ack",
 					fmt.Sprintf("Send(%s) (message seqno %d) returned ok although the relay never pushed AckMsg(%d) after seeing that message: an ack naming another seqno completed it [script %s]", id, so.Seqno, so.Seqno, sc.Name), witness(step))
@@ -498,6 +509,9 @@ func runC21Scripted(r *vf.Run, idx int, sc c21Script, pool []*keys.Identity, b *
 					seen = true
 				}
 			}
+			if !seen && !outstanding() {
+				earlyAcks[seq]++
+			}
 			if seen {
 				validAcks[seq]++
 				if st.Do == "ack" && st.Delta == 0 {
@@ -512,6 +526,7 @@ func runC21Scripted(r *vf.Run, idx int, sc c21Script, pool []*keys.Identity, b *
 					}
 				}
 			} else if outstanding() {
+				earlyAcks[seq]++
 				wrongDelivered++
 				r.Count("scripted_wrong_acks_delivered_while_outstanding", 1)
 			}
